@@ -175,9 +175,16 @@ func (cc *compareCtx) flush(gas bool) error {
 		// shadow IAVL tree for the "hash is a function of the write log" assumption
 		shadow, _ := iavl.NewMutableTree(tmdb.NewDB("shadow", tmdb.MemDBBackend, ""), 100)
 		mon := NewMonitor()
-		monDead := gas
-		// (A) the property monitor runs on the implementation's outputs alone, on every line
+		monDead := false
+		// (A) the property monitor runs on the implementation's outputs alone, on every line; also
+		// on metered states, where a write or a read may be refused but a read must never answer
+		// with another value than the most recent write in scope. State.Delete reports success
+		// also when the meter refused it (outside of a session): the reference cannot follow from
+		// there, so the monitor stops at the first such delete
 		for j, l := range lines {
+			if gas && mon.metered && mon.sess == nil && strings.HasPrefix(l, "del ") {
+				monDead = true
+			}
 			if monDead {
 				break
 			}
